@@ -39,6 +39,8 @@ def build_encode(variant, i):
     m = re.match(r'(\d)children-depth(\d)', variant)
     nchildren, depth = int(m.group(1)), int(m.group(2))
     g = lambda k: int(i[k])
+    if any(abs(int(v)) > 2_000_000 for k, v in i.items() if isinstance(v, int) and k != 'old_position' and k != 'old_size'):
+        raise ValueError('witness sizes too large to realise as real byte strings')
 
     class Blob(mp4.Mp4Atom):
         """a box whose fields are `nfields` opaque bytes"""
